@@ -116,6 +116,8 @@ class CacheDriver:
         import random
         self.spell_rng = random.Random(0x5be11)     # which calls are spelled positionally (deterministic per driver)
         self.positional_spellings = 0
+        self._last_ok = True
+        self._culled_now = {}
         self.calls_with_retry = 0
 
     def close(self):
@@ -206,6 +208,7 @@ class CacheDriver:
             got = ('raise', type(exc))
             self.last_exc = exc
         reads = list(self.clock.reads)
+        self._last_ok = got[0] == 'ok'
         mdl = self.model
         mdl.begin(reads)               # may raise Ambiguous
         margs = args
@@ -358,6 +361,7 @@ class CacheDriver:
     # ------------------------------------------------------------- reconcile
     def _reconcile(self, op, args, kw, rows, sets, reads):
         mdl = self.model
+        self._culled_now = {}
         seen = {}
         for row in rows:
             rid = observe.row_ident(row['key'], row['raw'])
@@ -409,6 +413,21 @@ class CacheDriver:
         if (hits, misses) != (mdl.hits, mdl.misses):
             raise Mismatch('statistics counters are (%d, %d), reference says (%d, %d) after %s' % (
                 hits, misses, mdl.hits, mdl.misses, op), self.witness())
+        # the lazy cull of a write that went through: it removes the expired items it meets, earliest first, as far as
+        # cull_limit allows - under every eviction policy, 'none' included (items are "still lazily removed if they
+        # expire").  So none may be left in the written shard while the call's budget was not used up.
+        limit = getattr(mdl, 'cull_budget', None) or mdl.cull_limit
+        if mdl.culling and not mdl.explicit_cull and self._last_ok and limit > 0 and reads and args:
+            target = mdl.find(args[0]) if op != 'push' else None
+            shard = 0 if self.kind == 'cache' else (self.shard_of.get(target.id) if target is not None else None)
+            if shard is not None:
+                now0 = reads[0]
+                left = [it for it in mdl.items if self.shard_of.get(it.id, 0) == shard
+                        and it.expire is not None and it.expire < now0]
+                culled = self._culled_now.get(shard, 0)
+                if left and culled < limit:
+                    raise Mismatch('%s culled %d expired item(s) and left %d behind in the same shard (e.g. %r), cull_limit is %d'
+                                   % (op, culled, len(left), left[0].key, limit), self.witness())
 
     def _judge_removed(self, op, missing, rows, reads):
         """Items vanished that the call did not itself remove: only the lazy
@@ -443,6 +462,9 @@ class CacheDriver:
             self.evicted += len(other)
             self.removed_by_policy = len(other)
         self.culled_expired += len(expired)
+        for it in expired:
+            sh = self.shard_of.get(it.id, 0)
+            self._culled_now[sh] = self._culled_now.get(sh, 0) + 1
 
     # ---------------------------------------------------------------- readout
     def readout(self):
